@@ -48,9 +48,9 @@ type Case struct {
 
 var names = []string{"a", "b", "", "a:b", "bad name!", "c"}
 var outputs = []string{"a", "b", "", "missing", "c"}
-var inits = []uint64{0, 1, math.MaxUint64}
-var starts = []int64{0, 1, 10, -5}
-var stops = []uint64{0, 1, 10}
+var inits = []uint64{0, 1, math.MaxUint64, 16, 6}
+var starts = []int64{0, 1, 10, -5, 17, 16, 7}
+var stops = []uint64{0, 1, 10, 15, 12, 5, 20, 25}
 var binIdx = []uint32{0, 1, 5}
 
 const nKinds = 6   // absent, map, store(valid), store(policy unset), store(policy 99), index
@@ -390,6 +390,11 @@ func Run(ctx *core.Ctx) int {
 			{{2, 0, []int{2}, 0, 0, 1}, {1, 1, []int{8}, 0, 0, 2}},
 			{{5, 0, []int{2}, 0, 0, 0}, {1, 1, []int{2}, 0, 2, 0}},
 			{{2, 0, []int{2}, 0, 0, 2}},
+			// initial blocks inside a segment (segment size 10, final block 20): start and stop blocks then fall before,
+			// inside and after the first segment, in either order
+			{{1, 0, []int{2}, 0, 0, 3}},
+			{{2, 0, []int{2}, 0, 0, 3}},
+			{{2, 0, []int{2}, 0, 0, 4}, {1, 1, []int{8}, 0, 0, 3}},
 			{},
 		}
 		for ci, cfg := range cfgs {
@@ -417,7 +422,7 @@ func Run(ctx *core.Ctx) int {
 	ctx.Cov["distinct_nontrivial"] = st.NonTrivial
 	ctx.Cov["exhaustive"] = true
 	ctx.Cov["by_family"] = counts
-	ctx.Cov["rule"] = fmt.Sprintf("request messages built from per-field domains that include 'absent' (kind: absent/map/store valid/store policy unset/store policy 99/index; name: a,b,'',a:b,'bad name!'; inputs: lists of <=%d over 15 shapes incl. no one-of, empty source type, source or param spelled like a module, map/store to self/other/missing, store modes 0,1,2,7; binary index 0/1/5; binaries none/valid/unknown type; block filter none or -> a/b/missing/'' x query absent/string/'-a'/from-params; initial block 0,1,2^64-1). One module: full product. Two modules: 120 first x all second shapes (duplicate names, self/mutual/dangling references). Three modules: cycles through inputs and filters. Request fields: output x start {-5,0,1,10} x stop x cursor {'',garbage,final,LIB>block} x mode x debug list on 5 module configs. Every message is marshalled and unmarshalled first. Each goes through ValidateTier1Request and, when accepted, NewOutputModuleGraph (hashing, staging), BuildRequestDetails, BuildTier1RequestPlan; and ValidateTier2Request + staging. Oracle: returns (value or error) - no panic, no 30 s hang, heap below 24 GiB. Non-trivial: the message is rejected at some stage (it differs from a valid request in at least one field); fully accepted messages are counted as trivial.", maxInputs)
+	ctx.Cov["rule"] = fmt.Sprintf("request messages built from per-field domains that include 'absent' (kind: absent/map/store valid/store policy unset/store policy 99/index; name: a,b,'',a:b,'bad name!'; inputs: lists of <=%d over 15 shapes incl. no one-of, empty source type, source or param spelled like a module, map/store to self/other/missing, store modes 0,1,2,7; binary index 0/1/5; binaries none/valid/unknown type; block filter none or -> a/b/missing/'' x query absent/string/'-a'/from-params; initial block 0,1,2^64-1). One module: full product. Two modules: 120 first x all second shapes (duplicate names, self/mutual/dangling references). Three modules: cycles through inputs and filters. Request fields: output x start {-5,0,1,7,10,16,17} x stop {0,1,5,10,12,15,20,25} (both orders of start and stop, below / inside / above the segment of a mid-segment initial block 6 or 16) x cursor {'',garbage,final,LIB>block} x mode x debug list on 8 module configs. Every message is marshalled and unmarshalled first. Each goes through ValidateTier1Request and, when accepted, NewOutputModuleGraph (hashing, staging), BuildRequestDetails, BuildTier1RequestPlan; and ValidateTier2Request + staging. Oracle: returns (value or error) - no panic, no 30 s hang, heap below 24 GiB. Non-trivial: the message is rejected at some stage (it differs from a valid request in at least one field); fully accepted messages are counted as trivial.", maxInputs)
 	ctx.Assume = []string{"in-process: a panic is recovered per case, a hang is detected by a watchdog goroutine, memory by a heap guard (the design's sub-process per shard was not needed)"}
 	return ctx.Finish(core.JSONRecheck(ctx.Prop, Eval))
 }
